@@ -10,6 +10,8 @@
 //     (used for text, attribute values, comment and PI data: the master's shrinker can delete items).
 // Every subsequence of such an array is again a valid text.
 #pragma once
+#include <xercesc/util/PlatformUtils.hpp>
+#include <xercesc/util/TransService.hpp>
 #include "core.hpp"
 #include <string>
 #include <vector>
@@ -125,7 +127,7 @@ inline bool xml10Char(uint32_t c) { return c == 9 || c == 10 || c == 13 || (c >=
 
 // ------------------------------------------------------------------ what an encoding can represent (asked of ICU directly)
 struct EncInfo {
-    std::string name; bool known = false, all = true; UConverter* cnv = nullptr; std::unordered_map<uint32_t, bool> cache;
+    std::string name; bool known = false, all = true; UConverter* cnv = nullptr; xercesc::XMLTranscoder* xt = nullptr; std::unordered_map<uint32_t, bool> cache, cacheFb;
     std::string family;    // utf8 | utf16 | other
     bool can(uint32_t cp) {
         if (all) return true;
@@ -136,6 +138,14 @@ struct EncInfo {
         int32_t len = ucnv_fromUChars(cnv, dst, sizeof dst, src, n, &e);
         bool ok = !U_FAILURE(e) && len > 0;
         cache[cp] = ok; return ok;
+    }
+    // not representable (ICU, strict), yet the Xerces transcoder the library asks answers "can transcode": best-fit mappings (fullwidth forms
+    // to ASCII) and default-ignorable code points (U+00AD, U+202D, ...), which the conversion then replaces or drops without a trace
+    bool lossyCan(uint32_t cp) {
+        if (all || cp < 0x80 || !xt || can(cp)) return false;
+        auto it = cacheFb.find(cp); if (it != cacheFb.end()) return it->second;
+        bool ok = false; try { ok = xt->canTranscodeTo(cp); } catch (...) {}
+        cacheFb[cp] = ok; return ok;
     }
 };
 inline bool ieq(const std::string& a, const char* b) { if (a.size() != strlen(b)) return false; for (size_t i = 0; i < a.size(); ++i) if (tolower((unsigned char)a[i]) != tolower((unsigned char)b[i])) return false; return true; }
@@ -149,21 +159,22 @@ inline EncInfo& encInfo(const std::string& name) {
     if (U_FAILURE(ec) || !c) { e.known = false; e.all = true; e.family = "utf8"; return e; }   // the library documents a fall-back to UTF-8
     ucnv_setFromUCallBack(c, UCNV_FROM_U_CALLBACK_STOP, nullptr, nullptr, nullptr, &ec);
     e.known = true; e.all = false; e.cnv = c; e.family = "other";
+    { xercesc::XMLTransService::Codes rc; try { e.xt = xercesc::XMLPlatformUtils::fgTransService->makeNewTranscoderFor(name.c_str(), rc, 1024); } catch (...) { e.xt = nullptr; } }
     return e;
 }
 
 
 // ------------------------------------------------------------------ classes used in violation signatures: what the serializers branch on
 // (relative to the target encoding and XML version), coarser than the classes above
-enum SCls { S_ASCII, S_LTAMP, S_GT, S_QUOT, S_RSB, S_TAB, S_LF, S_CR, S_C0, S_NUL, S_C1, S_NEL, S_LSEP, S_NONASCII, S_SUPP, S_UNENC, S_SURR, S_NONCHAR, S_N };
-static const char* const SCLS_NAME[S_N] = { "ascii", "lt-amp", "gt", "quot", "rsb", "TAB", "LF", "CR", "c0", "nul", "c1", "NEL", "LSEP", "nonascii", "supp", "unencodable", "surrogate", "nonchar" };
+enum SCls { S_ASCII, S_LTAMP, S_GT, S_QUOT, S_RSB, S_TAB, S_LF, S_CR, S_C0, S_NUL, S_C1, S_NEL, S_LSEP, S_NONASCII, S_SUPP, S_UNENC, S_SURR, S_NONCHAR, S_LOSSYCAN, S_N };
+static const char* const SCLS_NAME[S_N] = { "ascii", "lt-amp", "gt", "quot", "rsb", "TAB", "LF", "CR", "c0", "nul", "c1", "NEL", "LSEP", "nonascii", "supp", "unencodable", "surrogate", "nonchar", "lossy-can" };
 inline SCls sigClassOf(uint32_t c, EncInfo& enc, bool v11) {
     if (c == 0) return S_NUL; if (c == 9) return S_TAB; if (c == 10) return S_LF; if (c == 13) return S_CR; if (c < 0x20) return S_C0;
     if (c == '<' || c == '&') return S_LTAMP; if (c == '>') return S_GT; if (c == '"' || c == '\'') return S_QUOT; if (c == ']') return S_RSB;
     if (c < 0x7F) return S_ASCII;
     if (c >= 0xD800 && c <= 0xDFFF) return S_SURR; if (c == 0xFFFE || c == 0xFFFF) return S_NONCHAR;
     if (v11) { if (c == 0x85) return S_NEL; if (c <= 0x9F) return S_C1; if (c == 0x2028) return S_LSEP; }
-    if (!enc.can(c)) return S_UNENC;
+    if (!enc.can(c)) return enc.lossyCan(c) ? S_LOSSYCAN : S_UNENC;
     return c >= 0x10000 ? S_SUPP : S_NONASCII;
 }
 inline uint32_t sigMask(const XS& s, EncInfo& enc, bool v11) { uint32_t m = 0; for (auto c : decode(s)) m |= 1u << sigClassOf(c, enc, v11); return m; }
